@@ -11,7 +11,7 @@ from . import common
 from .common import Corr, f2hex
 
 ID = "C12"
-LEAN_MODULES = ["TempestVerif.Props.C12"]
+LEAN_MODULES = ["TempestVerif.Props.C12", "TempestVerif.Props.C12Run", "TempestVerif.Props.C12PostX", "TempestVerif.Props.C12Bridge"]
 RULE = ("posterior(): on finished real runs (both kernels x both resamplers x blob form in {none, float, (float,3) from 3 scalars, "
         "(float,3) from one array, structured [('a',float),('b',int)], (float,(2,2)) from two rows, (float,(2,2)) from one 2x2 array, "
         "mixed structured with a sub-array field}) all 16 option combinations x (ess_trim,bins_trim) in {(0.99,1000),(0.9,50),(0.5,7)} "
@@ -27,23 +27,43 @@ RULE = ("posterior(): on finished real runs (both kernels x both resamplers x bl
         "both sides of the thresholds; guard-from-history: the whole guard incl. the ESS computed from the stored log-weights "
         "(Model.Run.notTermination, Float; ESS within 1e-9, decision exact unless ESS is within rounding of n_total), also on a sampler "
         "with an empty history. run(): the real run returned, beta <= 1, and both model guards say stop on its final state; evidence() "
-        "equals the recomputation from the stored history bit for bit; also for runs resumed from a checkpoint with a larger n_total.")
+        "equals the recomputation from the stored history bit for bit; also for runs resumed from a checkpoint with a larger n_total. "
+        "Second pass: the posterior suites also run on UNDECLARED blobs (blobs_dtype=None, likelihood returns a float / three floats / "
+        "a string -> object dtype) through the whole-routine model with optional blobs (Model.PosteriorX.computePosteriorWith: blob gate "
+        "from (declared, current blobs present, committed blob arrays), guarded gathers, return selector). "
+        "run-entry: per kernel a fresh run(48, save_every=2), a second run(24) and run(96.5) on the same sampler, run(160 / 12, "
+        "resume_state_path=checkpoint) in new samplers, load_state(checkpoint)+run(100) (manual resume) against run(100, "
+        "resume_state_path=same checkpoint), and both forms on a file saved before any iteration; for every call the real entry "
+        "(which initialiser ran, t0, n_total attribute, iter / calls / beta / history length at the first loop test, whether the "
+        "stream was reseeded, evidence() before) vs Model.RunEntry.prologue, and EVERY evaluation of the loop guard vs "
+        "Model.Run.notTermination with THIS call's int(n_total); on return: iterations = number of true guards, history grew by "
+        "exactly that, the old history is a bit-identical prefix, n_total attribute = int(argument), evidence() = Z(1) recomputed; "
+        "manual and path resume give bit-identical histories. before-run: a new sampler's evidence() / n_total / posterior() "
+        "(all 16 combinations raise) / results(), a sampler that loaded a pre-run file, and a declared-but-never-returned blob "
+        "(posterior raises for all 16) vs the models' `none`.")
 MODELLED = ["trim_weights and systematic_resample inside the whole-routine model are the executable models of C20 (Model.Trim) and C06 "
             "(Model.Resample); their tie to the real functions is C20's / C06's correspondence (here: the index vectors they returned in "
             "the real call are passed to the gather model, and the call arguments are compared)",
             "compute_logw_and_logz(1.0) is a parameter (the log-weight vector / Z(1) of a history): its content is C04/C11's",
             "execute_iteration is an arbitrary state transformer in the run-loop theorems",
             "termination of run() is not claimed (liveness)",
-            "beta <= 1 on return is checked on the real runs only (the bisection range is C05's)"]
+            "beta <= 1 on return: proved on the closed-loop model (Props.C12.C12x_run_post, from C05's range theorem by induction over "
+            "the run) and asserted on every real run",
+            "the closed-loop model Model.ClosedLoop (C10) is tied to the real sampler by C10's closed-loop replay suites; here its "
+            "entry / guard / epilogue / n_total flow are tied by run-entry and by translator G12",
+            "which loop-top states save_every writes is C14's; the theorems hold for every loop-top state",
+            "the stream position after load/reseed is C09's (only 'reseeded or not' is compared here)"]
 ASSUMPTIONS = ["np.percentile / sorting inside trim_weights are outside this property (C20)",
-               "the flat history arrays x, logl, blobs and the log-weight vector have one common length (C07/C17; observed exactly by the "
-               "row-identity suite)",
+               "the flat history arrays x, logl, blobs and the log-weight vector have one common length: an assumption of the first-pass "
+               "theorems on an arbitrary history; proved as a run invariant of the closed-loop model in the second pass "
+               "(Props.C12.posteriorArrs_lengths) and observed exactly by the row-identity suite",
+               "n_total is an int: for a non-integer argument the guarantee is for int(n_total)",
                "Float rounding of exp/sum in the untrimmed weights and the ESS is bridged by tolerance only"]
 
 
 def translators():
-    from translate import g5_tables, g1_constants
-    return [g5_tables.generate(), g1_constants.generate()]
+    from translate import g5_tables, g1_constants, g12_entry
+    return [g5_tables.generate(), g1_constants.generate(), g12_entry.generate()]
 
 
 def _quiet():
@@ -68,6 +88,23 @@ BLOB_FORMS = {
 }
 
 
+# UNDECLARED blobs (docs: "return logl, blob" without blobs_dtype; handled since /repo 9130321): name -> blob items of x.
+# `_log_like` packs them with dtype `np.atleast_1d(blob[0]).dtype` (strings: object).
+UNDECLARED = {
+    "u-scalar": lambda x: (float(x[0]) * 2.0 + 1.0,),
+    "u-vec3": lambda x: (float(x[0]) * 2.0 + 1.0, float(x[-1]), float(np.sum(x))),
+    "u-str": lambda x: ("p%+.3f" % float(x[0]),),
+}
+
+
+def _items(form):
+    return UNDECLARED[form] if form in UNDECLARED else BLOB_FORMS[form][1]
+
+
+def _dtype(form):
+    return None if form in UNDECLARED else BLOB_FORMS[form][0]
+
+
 def _form(blobs):
     """normalise the blob selector (older failing inputs carry a bool)"""
     if blobs is True:
@@ -77,6 +114,11 @@ def _form(blobs):
 
 def _blob_of(form, x):
     """the blob row the likelihood attaches to the point x, as stored under the form's dtype"""
+    if form in UNDECLARED:
+        it = UNDECLARED[form](x)
+        if form == "u-str":
+            return np.array(it[0], dtype=object)
+        return np.array(it, dtype=float) if len(it) > 1 else np.array(it[0], dtype=float)
     dt, items = BLOB_FORMS[form]
     it = items(x)
     if len(it) == 1 and isinstance(it[0], np.ndarray):      # one array-valued blob: the row IS that array
@@ -86,6 +128,8 @@ def _blob_of(form, x):
 
 def _blob_eq(a, b):
     a, b = np.asarray(a), np.asarray(b)
+    if a.dtype.kind in "OU" or b.dtype.kind in "OU":      # object rows (a lone element comes out as a Python str): compare values
+        return a.shape == b.shape and bool(np.all(a.astype(object) == b.astype(object)))
     return a.dtype == b.dtype and a.size == b.size and a.tobytes() == b.tobytes()   # (a lone blob is stored squeezed)
 
 
@@ -99,14 +143,14 @@ def _make_run(rng, kernel, resample, blobs, n_total=96):
     if form is None:
         like = _L1
     else:
-        items = BLOB_FORMS[form][1]
+        items = _items(form)
 
         def like(x):
             return (_L1(x),) + tuple(items(x))
     seed = rng.randrange(2 ** 31)
     np.random.seed(seed)
     s = Sampler(prior, like, d, n_particles=32, clustering=False, sample=kernel, resample=resample,
-                blobs_dtype=(BLOB_FORMS[form][0] if form else None), n_steps=1, n_max_steps=2)
+                blobs_dtype=(_dtype(form) if form else None), n_steps=1, n_max_steps=2)
     with _quiet(), warnings.catch_warnings():
         warnings.simplefilter("ignore")
         s.run(n_total=n_total, progress=False)
@@ -132,6 +176,10 @@ def _posterior_cases(c, cc, drv, rng, s, form, tier, seed, runinfo=None):
             "b": st.get_history("blobs", flat=True) if blobs else None}
     logw_full, _ = st.compute_logw_and_logz(1.0)
     N = len(pool["l"])
+    decl = s._core.config.blobs_dtype is not None
+    curb = st.get_current("blobs") is not None
+    bh = ",".join(str(len(b)) for b in st._history["blobs"]) or "-"
+    c.count(f"blobs:{'declared' if decl else ('undeclared' if curb else 'none')}")
     w0_model = drv.batch(["post.w0 logw=" + ",".join(f2hex(float(v)) for v in logw_full)])[0]
     w0_model = None if w0_model in ("none", "bad-op") else np.array([common.hex2f(t) for t in w0_model.split(",")])
     # ess_trim = 1.0 (and above): nothing may be trimmed away; the loop must stop at the bottom of the grid (F28, /repo 8ceb8ba)
@@ -169,7 +217,9 @@ def _posterior_cases(c, cc, drv, rng, s, form, tier, seed, runinfo=None):
                 c.disagree(input={"resample": res, "trim": trim, "return_blobs": rb, "return_logw": rl, "blob_form": form},
                            impl=f"raised {type(e).__name__}: {e}", model="returns", run=runinfo, params=[ess_t, bins_t])
                 continue
-        line = (f"post.run n={N} trim={int(trim)} res={int(res)} blobs={int(blobs)} rb={int(rb)} rl={int(rl)} "
+        # the whole routine with OPTIONAL blobs (Model.PosteriorX): the blob gate sees (declared, current blobs present, the
+        # committed blob arrays); the trimming / resampling index vectors are the captured ones
+        line = (f"c12x.post n={N} decl={int(decl)} cur={int(curb)} bh={bh} empty=0 trim={int(trim)} res={int(res)} rb={int(rb)} rl={int(rl)} "
                 f"tidx={','.join(map(str, cap['tidx'])) if cap['tidx'] else '-'} ridx={','.join(map(str, cap['ridx'])) if cap['ridx'] else '-'}")
         lines.append(line)
         recs.append((out, cap, (res, trim, rb, rl, ess_t, bins_t)))
@@ -357,6 +407,317 @@ def _term_cases(c, drv, rng, s):
     c.sample({"op": lines[1], "impl": impl[1]})
 
 
+# ------------------------------------------------------------------ second pass: the entry of run_sampling, n_total flow
+def _observed_run(s, n_total, resume=None, save_every=None):
+    """run `s.run(n_total, resume_state_path=resume, save_every=save_every)` on the REAL sampler, observing — without changing —
+    which initialiser ran, whether the stream was reseeded, every evaluation of the loop guard (with the attribute it read, beta
+    and the log-weights it computed) and the state at the first loop test (= right after the prologue)."""
+    import dill
+    from tempest.core import SamplerCore
+    core, st = s._core, s.state
+    hl = st.get_history_length()
+    pre = {"hist": hl, "iter": st.get_current("iter"), "calls": st.get_current("calls"), "beta": st.get_current("beta"),
+           "logz": st.get_current("logz"), "nt": getattr(core, "n_total", None), "ev0": s.evidence()[0],
+           "betas": [float(b) for b in st.get_history("beta")] if hl else [],
+           "logl": st.get_history("logl", flat=True) if hl else np.array([]),
+           "x": st.get_history("x", flat=True) if hl else np.array([]),
+           "rs": core.config.random_state is not None}
+    ck = None
+    if resume is not None:
+        with open(resume, "rb") as fh:
+            d = dill.load(fh)
+        cur = d["_current"]
+        ck = {"hist": len(d["_history"]["beta"]), "iter": cur.get("iter"), "calls": cur.get("calls"), "beta": cur.get("beta"),
+              "logz": cur.get("logz"), "nt": d.get("n_total"), "rng": d.get("rng_state") is not None,
+              "betas": [float(b) for b in d["_history"]["beta"]],
+              "logl": np.concatenate(d["_history"]["logl"]) if d["_history"]["logl"] else np.array([])}
+    rec = {"fresh": 0, "from_resume": 0, "seed": 0, "guards": [], "iters": 0, "first": None}
+    o_nt, o_fresh, o_res, o_it, o_seed = (SamplerCore._not_termination, SamplerCore._initialize_fresh,
+                                          SamplerCore._initialize_from_resume, SamplerCore.execute_iteration, np.random.seed)
+
+    def spy_nt(self_):
+        r = o_nt(self_)
+        if self_ is core:
+            lw, _ = self_.state.compute_logw_and_logz(1.0)
+            if rec["first"] is None:
+                rec["first"] = {"iter": self_.state.get_current("iter"), "calls": self_.state.get_current("calls"),
+                                "beta": self_.state.get_current("beta"), "logz": self_.state.get_current("logz"),
+                                "hist": self_.state.get_history_length(), "t0": self_.t0, "nt": getattr(self_, "n_total", None)}
+            rec["guards"].append({"attr": getattr(self_, "n_total", 0), "beta": self_.state.get_current("beta"),
+                                  "logw": np.array(lw), "res": bool(r)})
+        return r
+
+    def spy_fresh(self_):
+        if self_ is core:
+            rec["fresh"] += 1
+        return o_fresh(self_)
+
+    def spy_res(self_, path):
+        if self_ is core:
+            rec["from_resume"] += 1
+        return o_res(self_, path)
+
+    def spy_it(self_, save_every, t0):
+        if self_ is core:
+            rec["iters"] += 1
+        return o_it(self_, save_every=save_every, t0=t0)
+
+    def spy_seed(*a, **k):
+        rec["seed"] += 1
+        return o_seed(*a, **k)
+    with common.patched(SamplerCore, "_not_termination", spy_nt), common.patched(SamplerCore, "_initialize_fresh", spy_fresh), \
+            common.patched(SamplerCore, "_initialize_from_resume", spy_res), common.patched(SamplerCore, "execute_iteration", spy_it), \
+            common.patched(np.random, "seed", spy_seed), _quiet(), warnings.catch_warnings():
+        warnings.simplefilter("ignore")
+        s.run(n_total=n_total, progress=False, resume_state_path=resume, save_every=save_every)
+    return pre, ck, rec
+
+
+def _h(v):
+    return f2hex(0.0 if v is None else float(v))
+
+
+def _entry_line(pre, ck, n_total):
+    line = (f"c12x.entry hist={pre['hist']} iter={int(pre['iter'] or 0)} calls={int(pre['calls'] or 0)} beta={_h(pre['beta'])} "
+            f"logz={_h(pre['logz'])} started={int(pre['logz'] is not None)} nt={'-' if pre['nt'] is None else int(pre['nt'])} "
+            f"call={int(n_total)} rs={int(pre['rs'])} ck={int(ck is not None)}")
+    if ck is not None:
+        # load_sampler_state fills the defaults of a file written before anything ran (iter 0, calls 0, beta 0.0, logz 0.0)
+        line += (f" ckhist={ck['hist']} ckiter={int(ck['iter'] or 0)} ckcalls={int(ck['calls'] or 0)} ckbeta={_h(ck['beta'])} "
+                 f"cklogz={_h(ck['logz'])} cknt={'-' if ck['nt'] is None else int(ck['nt'])} ckrng={int(ck['rng'])}")
+    return line
+
+
+def _entry_check(c, drv, s, n_total, pre, ck, rec, tol, label, info):
+    """one observed call against Model.RunEntry.prologue, every loop test against Model.Run.notTermination with THIS call's
+    int(n_total), and the return against what Props.C12.C12x_run_post states of the model"""
+    core, st = s._core, s.state
+    line = _entry_line(pre, ck, n_total)
+    glines = [f"term.H tol={f2hex(tol)} beta={f2hex(g['beta'])} logw={','.join(f2hex(float(v)) for v in g['logw']) or '-'} "
+              f"ntotal={f2hex(float(int(n_total)))}" for g in rec["guards"]]
+    ans = drv.batch([line] + glines)
+    m = dict(t.split("=", 1) for t in ans[0].split(" ")) if ans[0].startswith("branch=") else None
+    c.case((label, line, info.get("seed")), True)
+    c.count(f"entry:{label}")
+    bad = None
+    first = rec["first"]
+    real_branch = "resume" if rec["from_resume"] else ("fresh" if rec["fresh"] else "continue")
+    if m is None:
+        bad = f"model: {ans[0][:80]}"
+    elif rec["from_resume"] + rec["fresh"] > 1 or real_branch != m["branch"]:
+        bad = f"entry arm {real_branch} (initialisers: resume x{rec['from_resume']}, fresh x{rec['fresh']}), model says {m['branch']}"
+    elif first is None:
+        bad = "the loop guard was never evaluated"
+    else:
+        c.count(f"arm:{m['branch']}")
+        want = {"t0": int(m["t0"]), "nt": int(m["nt"]), "hist": int(m["hist"]), "iter": int(m["iter"]), "calls": int(m["calls"])}
+        got = {"t0": first["t0"], "nt": first["nt"], "hist": first["hist"], "iter": first["iter"], "calls": first["calls"]}
+        if got != want:
+            bad = f"after the entry: {got}, model says {want}"
+        elif f2hex(first["beta"]) != m["beta"] or f2hex(first["logz"]) != m["logz"]:
+            bad = f"after the entry beta={first['beta']!r} logz={first['logz']!r}, model says beta={common.hex2f(m['beta'])!r} logz={common.hex2f(m['logz'])!r}"
+        elif (rec["seed"] > 0) != (m["g"] == "99"):
+            bad = f"np.random.seed called {rec['seed']}x, model says reseeded={m['g'] == '99'}"
+        elif (pre["ev0"] is None) != (m["ev0"] == "none") or (pre["ev0"] is not None and f2hex(pre["ev0"]) != m["ev0"]):
+            bad = f"evidence() before the call {pre['ev0']!r}, model says {m['ev0']}"
+        elif any(g["attr"] != int(n_total) for g in rec["guards"]):
+            bad = f"the loop guard read n_total={[g['attr'] for g in rec['guards']][:3]}…, this call asked for {int(n_total)}"
+    if bad:
+        c.disagree(input=line[:300], impl=bad, model=ans[0][:300], scenario=label, **info)
+    # every evaluation of the guard
+    from tempest.tools import effective_sample_size
+    for g, gl, a in zip(rec["guards"], glines, ans[1:]):
+        c.case((label, "guard", len(g["logw"]), f2hex(g["beta"]), int(n_total), digest_arr(g["logw"])), True)
+        c.count("guard:continue" if g["res"] else "guard:stop")
+        parts = a.split(" ")
+        if len(parts) != 2 or parts[0] not in ("0", "1"):
+            c.disagree(input=gl[:120], impl=g["res"], model=a[:60], scenario=label, **info)
+        elif (parts[0] == "1") != g["res"]:
+            ess = float(effective_sample_size(np.exp(g["logw"] - np.max(g["logw"])))) if len(g["logw"]) else None
+            if ess is not None and abs(ess - int(n_total)) <= 1e-9 * (1.0 + abs(ess)):
+                c.near_ties += 1
+            else:
+                c.disagree(input={"beta": g["beta"], "n": len(g["logw"]), "n_total_of_this_call": int(n_total), "ess": ess},
+                           impl=f"real guard says {'continue' if g['res'] else 'stop'} (it read n_total={g['attr']})",
+                           model=f"{'continue' if parts[0] == '1' else 'stop'} for this call's n_total", scenario=label, **info)
+    # the return (C12x_run_post on the model)
+    c.case((label, "return", line), True)
+    n_true = sum(1 for g in rec["guards"] if g["res"])
+    hist0 = first["hist"] if first else 0
+    base = ck if ck is not None else pre
+    logw, z1 = st.compute_logw_and_logz(1.0)
+    post = None
+    if rec["iters"] != n_true or (rec["guards"] and rec["guards"][-1]["res"]):
+        post = f"{rec['iters']} iterations for {n_true} true guards (last guard {rec['guards'][-1]['res'] if rec['guards'] else None})"
+    elif st.get_history_length() != hist0 + rec["iters"]:
+        post = f"history length {st.get_history_length()} != {hist0} + {rec['iters']} iterations"
+    elif getattr(core, "n_total", None) != int(n_total):
+        post = f"n_total attribute {getattr(core, 'n_total', None)!r} after run({n_total!r})"
+    elif f2hex(s.evidence()[0]) != f2hex(z1):
+        post = f"evidence() {s.evidence()[0]!r} != recomputed {z1!r}"
+    elif not (st.get_current("beta") <= 1.0):
+        post = f"beta {st.get_current('beta')!r} > 1"
+    else:
+        # the stored history only grew: the history the call started from is a bit-identical prefix
+        if base["hist"] and m is not None and m["branch"] != "fresh":
+            nb = len(base["betas"])
+            hb = [float(b) for b in st.get_history("beta")]
+            fl = st.get_history("logl", flat=True)
+            if hb[:nb] != base["betas"] or not np.array_equal(fl[:len(base["logl"])], base["logl"]):
+                post = "the history the call started from is not a prefix of the history it left"
+    if post:
+        c.disagree(input=line[:300], impl=post, model="C12x_run_post: iterations = true guards, history grows by them, n_total = int(arg), "
+                   "evidence = Z(1), beta <= 1, old history is a prefix", scenario=label, **info)
+    c.sample({"scenario": label, "entry": ans[0][:200], "guards": len(rec["guards"]), "iterations": rec["iters"]})
+
+
+def _entry_suite(c, drv, rng, tier):
+    import os
+    import shutil
+    import tempfile
+    from tempest import Sampler
+    from translate import g1_constants
+    tol = g1_constants.extract()["TERM_BETA_TOL"]
+    kernels = [("rwm", None), ("tpcn", 7)] if tier == "quick" else [("rwm", None), ("tpcn", 7), ("rwm", 11), ("tpcn", None)] * 2
+    for kernel, rs in kernels:
+        d = tempfile.mkdtemp(prefix="tv12e_")
+        try:
+            seed = rng.randrange(2 ** 31)
+            info = {"kernel": kernel, "random_state": rs, "seed": seed}
+
+            def mk():
+                return Sampler(lambda u: 8.0 * u - 4.0, _L1, 2, n_particles=24, clustering=False, sample=kernel, output_dir=d,
+                               n_steps=1, n_max_steps=2, random_state=rs)
+            np.random.seed(seed)
+            # a file written before anything ran
+            pre_file = os.path.join(d, "pre.state")
+            with _quiet():
+                mk().save_state(pre_file)
+            s = mk()
+            for label, n, kw in (("fresh", 48, {"save_every": 2}), ("second-run-smaller", 24, {}), ("second-run-larger-noninteger", 96.5, {})):
+                pre, ck, rec = _observed_run(s, n, **kw)
+                _entry_check(c, drv, s, n, pre, ck, rec, tol, label, info)
+                if label == "second-run-smaller" and (rec["iters"] != 0 or f2hex(pre["ev0"]) != f2hex(s.evidence()[0])):
+                    # Props.C12.C12x_second_run_noop: asking for no more than the first call delivered executes nothing
+                    c.disagree(input={"first": 48, "second": 24}, impl=f"{rec['iters']} iterations, evidence {pre['ev0']!r} -> {s.evidence()[0]!r}",
+                               model="no iteration, same evidence", scenario=label, **info)
+            cks = sorted((f for f in os.listdir(d) if f.endswith(".state") and f[:-6].split("_")[-1].isdigit()),
+                         key=lambda f: int(f[:-6].split("_")[-1]))
+            mid = os.path.join(d, cks[len(cks) // 2])
+            for label, n, path in (("resume-larger", 160, mid), ("resume-smaller", 12, os.path.join(d, cks[-1])),
+                                   ("resume-file-without-history", 40, pre_file)):
+                s2 = mk()
+                pre, ck, rec = _observed_run(s2, n, resume=path)
+                _entry_check(c, drv, s2, n, pre, ck, rec, tol, label, info)
+            # manual resume = path resume (Props.C12.C12x_manual_resume_eq), on the real code: bit-identical histories
+            s3 = mk()
+            with _quiet():
+                s3.load_state(mid)
+            pre, ck, rec = _observed_run(s3, 100)
+            _entry_check(c, drv, s3, 100, pre, ck, rec, tol, "manual-resume", info)
+            s4 = mk()
+            pre4, ck4, rec4 = _observed_run(s4, 100, resume=mid)
+            _entry_check(c, drv, s4, 100, pre4, ck4, rec4, tol, "resume-same-file", info)
+            c.case(("manual-vs-path", seed, kernel), True)
+            same = (np.array_equal(s3.state.get_history("logl", flat=True), s4.state.get_history("logl", flat=True))
+                    and np.array_equal(s3.state.get_history("x", flat=True), s4.state.get_history("x", flat=True))
+                    and f2hex(s3.evidence()[0]) == f2hex(s4.evidence()[0]) and s3._core.t0 == s4._core.t0
+                    and s3.state.get_current("iter") == s4.state.get_current("iter")
+                    and s3.state.get_current("calls") == s4.state.get_current("calls"))
+            if not same:
+                c.disagree(input={"file": os.path.basename(mid), "n_total": 100}, impl="load_state()+run() and run(resume_state_path=) differ "
+                           f"(iter {s3.state.get_current('iter')} / {s4.state.get_current('iter')}, calls {s3.state.get_current('calls')} / "
+                           f"{s4.state.get_current('calls')}, evidence {s3.evidence()[0]!r} / {s4.evidence()[0]!r})",
+                           model="the same call (C12x_manual_resume_eq)", scenario="manual-vs-path", **info)
+            # the manual form on a file without history takes the fresh arm
+            s5 = mk()
+            with _quiet():
+                s5.load_state(pre_file)
+            pre, ck, rec = _observed_run(s5, 40)
+            _entry_check(c, drv, s5, 40, pre, ck, rec, tol, "manual-resume-file-without-history", info)
+        finally:
+            shutil.rmtree(d, ignore_errors=True)
+
+
+def _before_run_suite(c, drv, rng):
+    """error paths: a sampler that has not run; one that loaded a pre-run file; blobs declared but never returned"""
+    import os
+    import shutil
+    import tempfile
+    from tempest import Sampler
+    combos = list(itertools.product([False, True], repeat=4))
+
+    def post_lines(n, decl, cur, bh, empty):
+        return [f"c12x.post n={n} decl={int(decl)} cur={int(cur)} bh={bh} empty={int(empty)} trim={int(t)} res={int(r)} rb={int(rb)} rl={int(rl)} "
+                f"tidx={'-' if not t else ','.join(map(str, range(n)))} ridx={'-' if not r else ','.join(map(str, range(n)))}"
+                for (r, t, rb, rl) in combos]
+
+    def raises(s, r, t, rb, rl):
+        try:
+            with warnings.catch_warnings():
+                warnings.simplefilter("ignore")
+                s.posterior(resample=r, trim_importance_weights=t, return_blobs=rb, return_logw=rl)
+            return None
+        except Exception as e:  # noqa
+            return type(e).__name__
+    s = Sampler(lambda u: 8.0 * u - 4.0, _L1, 2, n_particles=24, clustering=False)
+    ans = drv.batch(["c12x.entry hist=0 iter=0 calls=0 beta=0000000000000000 logz=0000000000000000 started=0 nt=- call=1 rs=0 ck=0"]
+                    + post_lines(0, False, False, "-", True))
+    m = dict(t.split("=", 1) for t in ans[0].split(" "))
+    c.case("new-sampler", True)
+    c.count("new-sampler")
+    res = s.results()
+    if s.evidence()[0] is not None or m["ev0"] != "none" or s.n_total is not None or len(res["logw"]) != 0:
+        c.disagree(input="new sampler", impl={"evidence": s.evidence(), "n_total": s.n_total, "len(results()['logw'])": len(res["logw"])},
+                   model={"evidence": m["ev0"], "n_total": "none", "logw": "empty"})
+    for (r, t, rb, rl), a in zip(combos, ans[1:]):
+        c.case(("new-sampler-posterior", r, t, rb, rl), True)
+        c.count("posterior-before-run")
+        e = raises(s, r, t, rb, rl)
+        if (e is None) != (a != "raise") or e not in (None, "ValueError"):
+            c.disagree(input={"resample": r, "trim": t, "return_blobs": rb, "return_logw": rl}, impl=f"posterior() on a new sampler: {e or 'returned'}",
+                       model=a[:40])
+    d = tempfile.mkdtemp(prefix="tv12b_")
+    try:
+        f = os.path.join(d, "pre.state")
+        with _quiet():
+            s.save_state(f)
+            s2 = Sampler(lambda u: 8.0 * u - 4.0, _L1, 2, n_particles=24, clustering=False)
+            s2.load_state(f)
+        a = drv.batch(["c12x.entry hist=0 iter=0 calls=0 beta=0000000000000000 logz=0000000000000000 started=0 nt=- call=1 rs=0 ck=1 "
+                       "ckhist=0 ckiter=0 ckcalls=0 ckbeta=0000000000000000 cklogz=0000000000000000 cknt=- ckrng=1"])[0]
+        m = dict(t.split("=", 1) for t in a.split(" "))
+        c.case("loaded-pre-run-file", True)
+        c.count("loaded-pre-run-file")
+        if s2.evidence()[0] is None or f2hex(s2.evidence()[0]) != m["ev"] or s2.n_total is not None or raises(s2, False, True, False, False) != "ValueError":
+            c.disagree(input="load_state(file saved before any run)", impl={"evidence": s2.evidence(), "n_total": s2.n_total},
+                       model={"evidence": m["ev"], "n_total": "none", "posterior": "raise"})
+    finally:
+        shutil.rmtree(d, ignore_errors=True)
+    # blobs_dtype declared, the likelihood returns no blob (a configuration error): nothing is ever committed under "blobs" and
+    # posterior() raises for every flag combination, as Props.C12.C12x_posterior_declared_without_blobs says of the model
+    np.random.seed(rng.randrange(2 ** 31))
+    s3 = Sampler(lambda u: 8.0 * u - 4.0, _L1, 2, n_particles=24, clustering=False, blobs_dtype=float, n_steps=1, n_max_steps=2)
+    with _quiet(), warnings.catch_warnings():
+        warnings.simplefilter("ignore")
+        try:        # (the run itself stops at the first resampling for the same reason; the warm-up batch is committed by then)
+            s3.run(n_total=48, progress=False)
+        except ValueError:
+            c.count("declared-never-returned: run() raised too")
+    if s3.state.get_history_length() == 0:
+        return
+    n = len(s3.state.get_history("logl", flat=True))
+    bh = ",".join(str(len(b)) for b in s3.state._history["blobs"]) or "-"
+    for (r, t, rb, rl), a in zip(combos, drv.batch(post_lines(n, True, s3.state.get_current("blobs") is not None, bh, False))):
+        c.case(("declared-never-returned", r, t, rb, rl), True)
+        c.count("declared-never-returned")
+        e = raises(s3, r, t, rb, rl)
+        if (e is None) != (a != "raise"):
+            c.disagree(input={"blobs_dtype": "float", "likelihood": "no blob", "resample": r, "trim": t, "return_blobs": rb, "return_logw": rl},
+                       impl=f"posterior(): {e or 'returned'}", model=a[:40])
+    c.sample({"new": ans[0][:160], "posterior_before_run": ans[1]})
+
+
 def correspond(tier):
     drv = common.Driver()
     rng = common.rng_for("C12")
@@ -365,11 +726,16 @@ def correspond(tier):
     ct = Corr("not-termination-guard", "bit-exact Float")
     ch = Corr("guard-from-history", "toleranced Float (ESS 1e-9 relative; decision exact away from ESS = n_total)")
     cr = Corr("run-epilogue", "exact")
+    ce = Corr("run-entry", "exact (entry arm, t0, n_total, counters, evidence bits, history prefix); loop-guard decisions exact away from ESS = n_total")
+    cb = Corr("before-run", "exact (raises / returns, None / value)")
+    _before_run_suite(cb, drv, rng)
+    _entry_suite(ce, drv, common.rng_for("C12.entry"), tier)
     # every blob form (none + the five documented ones) x both kernels x both resamplers over the runs
     configs = [("tpcn", "mult", "scalar"), ("rwm", "syst", None), ("rwm", "mult", "vec3"), ("tpcn", "syst", "struct"),
-               ("rwm", "syst", "mat"), ("tpcn", "mult", "mixed"), ("tpcn", "syst", "vec3-array"), ("rwm", "mult", "mat-array")]
+               ("rwm", "syst", "mat"), ("tpcn", "mult", "mixed"), ("tpcn", "syst", "vec3-array"), ("rwm", "mult", "mat-array"),
+               ("rwm", "mult", "u-scalar"), ("tpcn", "syst", "u-vec3"), ("rwm", "syst", "u-str")]
     if tier == "thorough":
-        forms = [None] + list(BLOB_FORMS)
+        forms = [None] + list(BLOB_FORMS) + list(UNDECLARED)
         configs += [(k, r, f) for k in ("tpcn", "rwm") for r in ("mult", "syst") for f in forms] * 2
     # the guard on a sampler that has not run yet (empty history => continue)
     from tempest import Sampler
@@ -438,7 +804,7 @@ def correspond(tier):
                             model={"guard_continue_for_requested_n_total": m}, resume=True)
         finally:
             shutil.rmtree(d, ignore_errors=True)
-    return [cp, cc, ct, ch, cr]
+    return [cp, cc, ct, ch, cr, ce, cb]
 
 
 # ------------------------------------------------------------------ property oracle on the real code
@@ -477,6 +843,9 @@ def oracle_run(s, blobs, extra_params=()):
                 bad.append({"what": f"posterior raised {type(e).__name__}: {e}", "opts": opts})
                 continue
             n_expected = 3 + (1 if (rb and blobs) else 0) + (1 if rl else 0)
+            if any(a is None for a in out):
+                bad.append({"what": f"posterior returned a tuple with None at position {[a is None for a in out].index(True)}", "opts": opts})
+                continue
             lens = [len(a) for a in out]
             if len(out) != n_expected or len(set(lens)) != 1:
                 bad.append({"what": f"posterior returned arrays of lengths {lens}", "opts": opts})
@@ -531,13 +900,30 @@ def oracle_guard(s):
     return bad
 
 
+def _post_ok(s, n_b):
+    """the statement's postconditions of run() for the n_total of the LAST call"""
+    from tempest.tools import effective_sample_size
+    logw, z1 = s.state.compute_logw_and_logz(1.0)
+    ess = float(effective_sample_size(np.exp(logw - np.max(logw))))
+    beta = s.state.get_current("beta")
+    if not (beta <= 1.0 and 1.0 - beta < 1e-4):
+        return f"beta={beta!r}"
+    if not ess >= int(n_b):
+        return f"beta={beta!r}, ESS={ess:.1f} < {int(n_b)}"
+    if s.evidence()[0] != z1:
+        return f"evidence() {s.evidence()[0]!r} != recomputed {z1!r}"
+    return None
+
+
 def oracle_resume(rng):
-    """run(n_total=B, resume_state_path=checkpoint of a run with n_total=A < B) must end with ESS >= B"""
+    """every way of entering run() on top of an existing history, each with ANOTHER n_total than the run that made the history:
+    run(B, resume_state_path=checkpoint of a run with n_total=A); run(A) then run(B) on the same sampler; load_state(checkpoint)
+    then run(B).  Each must end within 1e-4 of beta = 1 (from below) with ESS >= B over the whole history and evidence() equal to
+    the recomputation."""
     import os
     import shutil
     import tempfile
     from tempest import Sampler
-    from tempest.tools import effective_sample_size
     bad = []
     for kernel, n_a, n_b in (("rwm", 48, 192), ("tpcn", 48, 256)):
         d = tempfile.mkdtemp(prefix="tv12_")
@@ -545,19 +931,37 @@ def oracle_resume(rng):
             seed = rng.randrange(2 ** 31)
             mk = lambda: Sampler(lambda u: 8.0 * u - 4.0, lambda x: -0.5 * float(np.sum((x - 0.5) ** 2)) * 3.0, 2, n_particles=24,
                                  clustering=False, sample=kernel, output_dir=d, n_steps=1, n_max_steps=2)
+            cfg = {"kernel": kernel, "resample": "mult", "blobs": False, "n_total": n_a}
             np.random.seed(seed)
             with _quiet(), warnings.catch_warnings():
                 warnings.simplefilter("ignore")
-                mk().run(n_total=n_a, progress=False, save_every=2)
-                for ck in sorted(f for f in os.listdir(d) if f.endswith(".state")):
+                s1 = mk()
+                s1.run(n_total=n_a, progress=False, save_every=2)
+                cks = sorted(f for f in os.listdir(d) if f.endswith(".state"))
+                for ck in cks:
                     s2 = mk()
                     s2.run(n_total=n_b, progress=False, resume_state_path=os.path.join(d, ck))
-                    logw, _ = s2.state.compute_logw_and_logz(1.0)
-                    ess = float(effective_sample_size(np.exp(logw - np.max(logw))))
-                    beta = s2.state.get_current("beta")
-                    if not (1.0 - beta < 1e-4 and ess >= n_b):
-                        bad.append({"what": f"run(n_total={n_b}, resume_state_path={ck}) of a run written with n_total={n_a} returned with beta={beta!r}, ESS={ess:.1f} < {n_b}",
-                                    "config": {"kernel": kernel, "resample": "mult", "blobs": False, "n_total": n_a}, "seed": seed, "resume": True})
+                    why = _post_ok(s2, n_b)
+                    if why:
+                        bad.append({"what": f"run(n_total={n_b}, resume_state_path={ck}) of a run written with n_total={n_a} returned with {why}",
+                                    "config": cfg, "seed": seed, "resume": True})
+                        return bad
+                # a second run() on the same sampler, asking for more
+                s1.run(n_total=n_b, progress=False)
+                why = _post_ok(s1, n_b)
+                if why:
+                    bad.append({"what": f"run(n_total={n_a}) followed by run(n_total={n_b}) on the same sampler returned with {why}",
+                                "config": cfg, "seed": seed, "resume": True})
+                    return bad
+                # manual resume: load_state() then run() without a path
+                for ck in cks[:: max(1, len(cks) // 3)]:
+                    s3 = mk()
+                    s3.load_state(os.path.join(d, ck))
+                    s3.run(n_total=n_b + 0.5, progress=False)
+                    why = _post_ok(s3, n_b + 0.5) or (None if s3.n_total == n_b else f"n_total attribute {s3.n_total!r} after run({n_b + 0.5})")
+                    if why:
+                        bad.append({"what": f"load_state({ck}) of a run written with n_total={n_a}, then run(n_total={n_b + 0.5}) returned with {why}",
+                                    "config": cfg, "seed": seed, "resume": True})
                         return bad
         finally:
             shutil.rmtree(d, ignore_errors=True)
@@ -606,7 +1010,7 @@ def search(tier, hints):
     for _ in range(n):
         kernel = rng.choice(["tpcn", "rwm"])
         resample = rng.choice(["mult", "syst"])
-        blobs = rng.choice([None, None] + list(BLOB_FORMS))
+        blobs = rng.choice([None, None] + list(BLOB_FORMS) + list(UNDECLARED))
         n_total = rng.choice([64, 128, 256])
         try:
             s, seed = _make_run(rng, kernel, resample, blobs, n_total)
